@@ -173,3 +173,82 @@ Definition do_sex_header : list string := do_sex_columns.
 
 (* strsign: "+%.3g" for a positive number, "%.3g" otherwise *)
 Definition strsign_plus (q : Q) : bool := qlt_b 0 q.
+
+(* ---- additions for the bounded-noise theorems C15_sex_bounded_noise and friends -----------------------
+   the centre compare_to_auto takes of a set of bins: the weighted median when the table has a weight column,
+   else the plain median *)
+Definition sex_centre (t : list bin) (sub : list bin) : Q :=
+  if has_weight t then wmed (map b_log2 sub) (weights_of sub) else median (map b_log2 sub).
+
+(* the contract on the two statistics of one chromosome, as a test: when both median tests give a statistic,
+   both are non-negative, and the hypothesis with the SMALLER difference of medians (as compare_to_auto computes
+   it) has the smaller statistic -- not larger when that is the female hypothesis (the two tests can see the same
+   table: a female sample's chrY lies below the autosomes under either shift); strictly smaller when it is the male
+   hypothesis, and then the female-hypothesis statistic also clears the floor of the denominator.  Vacuous (true) when
+   either test gives no statistic. *)
+Definition stat_contract_b (gstat : mtable -> Q) (auto_l : list Q) (auto_w : option (list Q))
+  (vals : list Q) (w : option (list Q)) (female_shift male_shift : Q) : bool :=
+  let fv := map (fun x => qadd x female_shift) vals in
+  let mv := map (fun x => qadd x male_shift) vals in
+  match mood_stat gstat auto_l fv, mood_stat gstat auto_l mv with
+  | Some f, Some m =>
+      let fd := med_diff auto_l auto_w fv w in
+      let md := med_diff auto_l auto_w mv w in
+      qle_b 0 f && qle_b 0 m && (negb (qlt_b fd md) || qle_b f m) &&
+      (negb (qlt_b md fd) || (qlt_b m f && qlt_b lr_denominator_floor f))
+  | _, _ => true
+  end.
+
+(* 0: no statistic for at least one hypothesis (the difference of medians decides); 1: both statistics *)
+Definition stat_route (gstat : mtable -> Q) (auto_l vals : list Q) (female_shift male_shift : Q) : Z :=
+  match mood_stat gstat auto_l (map (fun x => qadd x female_shift) vals),
+        mood_stat gstat auto_l (map (fun x => qadd x male_shift) vals) with
+  | Some _, Some _ => 1%Z
+  | _, _ => 0%Z
+  end.
+
+(* both at once (one evaluation of the two tests): what the entry c15_noise_check runs; equal to the pair above
+   (Proofs/SexNoise.v stat_contract_route_eq) *)
+Definition stat_contract_route (gstat : mtable -> Q) (auto_l : list Q) (auto_w : option (list Q))
+  (vals : list Q) (w : option (list Q)) (female_shift male_shift : Q) : bool * Z :=
+  let fv := map (fun x => qadd x female_shift) vals in
+  let mv := map (fun x => qadd x male_shift) vals in
+  match mood_stat gstat auto_l fv, mood_stat gstat auto_l mv with
+  | Some f, Some m =>
+      let fd := med_diff auto_l auto_w fv w in
+      let md := med_diff auto_l auto_w mv w in
+      (qle_b 0 f && qle_b 0 m && (negb (qlt_b fd md) || qle_b f m) &&
+       (negb (qlt_b md fd) || (qlt_b m f && qlt_b lr_denominator_floor f)), 1%Z)
+  | _, _ => (true, 0%Z)
+  end.
+Definition sex_contract_route_x gstat (hap : bool) (build : option parb) (t : list bin) : bool * Z :=
+  let chrx := filter (chr_x_filter t build) t in
+  let auto := autosomes t build in
+  let use := has_weight t in
+  stat_contract_route gstat (map b_log2 auto) (opt_weights use auto) (map b_log2 chrx) (opt_weights use chrx)
+                      (fst (x_shifts hap)) (snd (x_shifts hap)).
+Definition sex_contract_route_y gstat (build : option parb) (t : list bin) : bool * Z :=
+  let chry := filter (chr_y_filter t build) t in
+  let auto := autosomes t build in
+  let use := has_weight t in
+  stat_contract_route gstat (map b_log2 auto) (opt_weights use auto) (map b_log2 chry) (opt_weights use chry)
+                      y_shift_female y_shift_male.
+
+Definition sex_contract_x_b gstat (hap : bool) (build : option parb) (t : list bin) : bool :=
+  let chrx := filter (chr_x_filter t build) t in
+  let auto := autosomes t build in
+  let use := has_weight t in
+  stat_contract_b gstat (map b_log2 auto) (opt_weights use auto) (map b_log2 chrx) (opt_weights use chrx)
+                  (fst (x_shifts hap)) (snd (x_shifts hap)).
+Definition sex_contract_y_b gstat (build : option parb) (t : list bin) : bool :=
+  let chry := filter (chr_y_filter t build) t in
+  let auto := autosomes t build in
+  let use := has_weight t in
+  stat_contract_b gstat (map b_log2 auto) (opt_weights use auto) (map b_log2 chry) (opt_weights use chry)
+                  y_shift_female y_shift_male.
+Definition sex_route_x gstat (hap : bool) (build : option parb) (t : list bin) : Z :=
+  stat_route gstat (map b_log2 (autosomes t build)) (map b_log2 (filter (chr_x_filter t build) t))
+             (fst (x_shifts hap)) (snd (x_shifts hap)).
+Definition sex_route_y gstat (build : option parb) (t : list bin) : Z :=
+  stat_route gstat (map b_log2 (autosomes t build)) (map b_log2 (filter (chr_y_filter t build) t))
+             y_shift_female y_shift_male.
